@@ -217,6 +217,35 @@ const (
 	ixDupValValOther = "idx-dup-valid-then-valid-other-url"
 )
 
+// Absent members: an item lacks the downloadUrl member (not: has an empty
+// one) or the filterKey member, and the order / length of the index differs
+// from the plain index of the previous round (sorted: mark, rl_a, rl_b, rl_c),
+// so that the item sits at a position another list held before.  An item
+// without downloadUrl is an invalid entry with a valid id: rl_b keeps its
+// previous version.  An item without filterKey names no list at all.
+const (
+	ixAbsURLFirst   = "idx-known-absent-url-permuted-first"  // rl_b at the position the mark list held
+	ixAbsURLSecond  = "idx-known-absent-url-permuted-second" // rl_b at the position rl_a held
+	ixAbsURLShort   = "idx-known-absent-url-shortened"       // three items: rl_c is not listed any more
+	ixAbsURLLong    = "idx-known-absent-url-lengthened"      // five items: one more valid list in front
+	ixAbsKeyFirst   = "idx-extra-absent-key-permuted-first"  // an additional item without filterKey in front
+	ixAbsKeySecond  = "idx-extra-absent-key-permuted-second" // ... at the position rl_a held
+	markGhostListID = markPrefix + "ghost"
+)
+
+var idxAbsentKinds = []string{ixAbsURLFirst, ixAbsURLSecond, ixAbsURLShort, ixAbsURLLong, ixAbsKeyFirst, ixAbsKeySecond}
+
+func isIdxAbsent(k string) bool { return strings.Contains(k, "-absent-") }
+
+// idxRemoves names the rule list that an index variant legitimately does not
+// list any more ("" = none).
+func idxRemoves(k string) string {
+	if k == ixAbsURLShort {
+		return tRLc
+	}
+	return ""
+}
+
 var idxDupKinds = []string{ixDupInvValEmpty, ixDupInvValFTP, ixDupInvValBad, ixDupValInvEmpty, ixDupValInvFTP, ixDupValInvBad, ixDupValValOther}
 
 func isIdxDup(k string) bool { return strings.HasPrefix(k, "idx-dup-") }
@@ -231,6 +260,50 @@ func sp(s string) *string { return &s }
 func indexText(urls map[string]string, v int, variant string) []byte {
 	var ents []any
 	add := func(k string, u *string) { ents = append(ents, idxEntry{Key: k, URL: u}) }
+	finish := func() []byte {
+		b, _ := json.MarshalIndent(map[string]any{"filters": ents, "comment": fmt.Sprintf("index version %d %s", v, variant)}, "", " ")
+		return append(b, '\n')
+	}
+	if isIdxAbsent(variant) {
+		mark := fmt.Sprintf("%s%d", markPrefix, v)
+		val := func(t string) { add(t, sp(urls[t])) }
+		noKey := func(u string) { ents = append(ents, map[string]any{"downloadUrl": u}) }
+		switch variant {
+		case ixAbsURLFirst:
+			add(tRLb, nil)
+			val(tRLa)
+			val(tRLc)
+			add(mark, sp(urls[tMark]))
+		case ixAbsURLSecond:
+			add(mark, sp(urls[tMark]))
+			add(tRLb, nil)
+			val(tRLc)
+			val(tRLa)
+		case ixAbsURLShort:
+			val(tRLa)
+			add(tRLb, nil)
+			add(mark, sp(urls[tMark]))
+		case ixAbsURLLong:
+			add(markGhostListID, sp(urls[tMark]))
+			add(mark, sp(urls[tMark]))
+			val(tRLc)
+			add(tRLb, nil)
+			val(tRLa)
+		case ixAbsKeyFirst:
+			noKey(urls[tRLc])
+			val(tRLa)
+			val(tRLb)
+			val(tRLc)
+			add(mark, sp(urls[tMark]))
+		case ixAbsKeySecond:
+			add(mark, sp(urls[tMark]))
+			noKey(urls[tRLc])
+			val(tRLa)
+			val(tRLb)
+			val(tRLc)
+		}
+		return finish()
+	}
 	extra := func(kind string) {
 		switch kind {
 		case ixBadKey:
@@ -289,8 +362,7 @@ func indexText(urls map[string]string, v int, variant string) []byte {
 	}
 	add(fmt.Sprintf("%s%d", markPrefix, v), sp(urls[tMark]))
 	add(tRLa, sp(urls[tRLa]))
-	b, _ := json.MarshalIndent(map[string]any{"filters": ents, "comment": fmt.Sprintf("index version %d %s", v, variant)}, "", " ")
-	return append(b, '\n')
+	return finish()
 }
 
 // ---- instance ("one process lifetime") -------------------------------------
@@ -487,6 +559,9 @@ type observation struct {
 	Has map[string]bool `json:"has"`
 	// MarkStatic tells whether the static mark list content is applied.
 	MarkStatic bool `json:"mark_static"`
+	// Foreign lists, per rule list, the other lists ("<list>@v<version>")
+	// whose content it serves when it alone is enabled.
+	Foreign map[string][]string `json:"foreign,omitempty"`
 	// Errs are filtering errors (never expected).
 	Errs []string `json:"errs,omitempty"`
 }
@@ -514,7 +589,7 @@ func (in *instance) observe(ctx context.Context) observation {
 		SafeBrowsing: &filter.ConfigSafeBrowsing{Enabled: true, DangerousDomainsEnabled: true, NewlyRegisteredDomainsEnabled: true},
 	}
 	f := in.st.ForConfig(ctx, conf)
-	filtered := func(host string) bool {
+	filteredBy := func(f filter.Interface, host string) bool {
 		req := &filter.Request{
 			DNS: &dns.Msg{
 				MsgHdr:   dns.MsgHdr{Id: 1, RecursionDesired: true},
@@ -536,6 +611,37 @@ func (in *instance) observe(ctx context.Context) observation {
 			return true
 		}
 		return false
+	}
+	filtered := func(host string) bool { return filteredBy(f, host) }
+	// a rule list enabled alone must not filter hosts of the other rule lists
+	for _, t := range ruleListTargets {
+		if !o.Has[t] {
+			continue
+		}
+		one := in.st.ForConfig(ctx, &filter.ConfigGroup{
+			Parental:     &filter.ConfigParental{},
+			RuleList:     &filter.ConfigRuleList{IDs: []filter.ID{filter.ID(t)}, Enabled: true},
+			SafeBrowsing: &filter.ConfigSafeBrowsing{},
+		})
+		for _, x := range ruleListTargets {
+			if x == t {
+				continue
+			}
+			for v := 1; v <= in.conf.VMax; v++ {
+				if filteredBy(one, hostOf(x, v, 0)) {
+					if o.Foreign == nil {
+						o.Foreign = map[string][]string{}
+					}
+					o.Foreign[t] = append(o.Foreign[t], fmt.Sprintf("%s@v%d", x, v))
+				}
+			}
+		}
+		if filteredBy(one, "mark-static.example") {
+			if o.Foreign == nil {
+				o.Foreign = map[string][]string{}
+			}
+			o.Foreign[t] = append(o.Foreign[t], tMark)
+		}
 	}
 	for _, t := range servingLists {
 		lo := listObs{}
